@@ -10,7 +10,8 @@ from . import cards
 
 KINDS = ["F2", "FL", "F3", "g1", "gL", "g4"]
 FLAVORS = ["total", "light", "charm", "bottom", "top"]
-SCHEMES = [("ZM-VFNS", 4), ("ZM-VFNS@1e5", 4), ("FFN0%3", 3), ("FFN0%3", 4), ("FONLL-FFN0%3", 3), ("FFNS", 6), ("FFNS", 3), ("FFNS", 4), ("FFNS", 5), ("FFN0", 3), ("FFN0", 4), ("FFN0", 5), ("FONLL-FFNS", 3), ("FONLL-FFNS", 4), ("FONLL-FFN0", 3), ("FONLL-FFN0", 4)]
+SCHEMES = [("ZM-VFNS", 4), ("ZM-VFNS@1e5", 4), ("FFN0%3", 3), ("FFN0%3", 4), ("FONLL-FFN0%3", 3), ("FFNS", 6), ("FFNS", 3), ("FFNS", 4), ("FFNS", 5), ("FFN0", 3), ("FFN0", 4), ("FFN0", 5), ("FONLL-FFNS", 3), ("FONLL-FFNS", 4), ("FONLL-FFN0", 3), ("FONLL-FFN0", 4),
+           ("ZM-VFNS%+", 4), ("FFNS%+", 3), ("FFN0%+", 3), ("FONLL-FFN0%+", 4)]
 PROCS = [("EM", "electron"), ("EM", "positron"), ("NC", "electron"), ("NC", "positron"), ("CC", "electron"), ("CC", "positron"), ("CC", "neutrino"), ("CC", "antineutrino")]
 XSKINDS = cards.XS
 
@@ -23,7 +24,10 @@ def all_cells():
 
 def evol_order(cell):
     """order of the evolution (theory card `PTO`): the DIS order capped at 2, or equal to it for the
-    `%3` variants (N3LL asymptotic logarithms)"""
+    `%3` variants (N3LL asymptotic logarithms), or one above it for the `%+` variants (card option
+    `PTODIS` below `PTO`: evolution at a higher order than the coefficient functions)"""
+    if "%+" in cell[4]:
+        return min(cell[6] + 1, 3)
     return cell[6] if "%3" in cell[4] else min(cell[6], 2)
 
 
@@ -146,6 +150,30 @@ def full(cell):
         out = yadism.run_yadism(t, o)
         r = out[f"{kind}_{fl}"][0]
         fin = all(np.isfinite(v).all() and np.isfinite(e).all() for v, e in r.orders.values())
+        return "ok" if fin else "nonfinite"
+    except Exception as e:  # noqa
+        return classify_exception(e)
+
+
+def full_multi(cell):
+    """a real run over a list of points with a repeated entry (same point listed twice, and a third
+    one in between): outcome class, and the output must hold one finite result per listed point"""
+    import yadism
+
+    t, o = make_cards(cell)
+    kind, fl = cell[0], cell[1]
+    name = f"{kind}_{fl}"
+    kin = o["observables"][name][0]
+    pts = [dict(kin), dict(kin, x=0.3), dict(kin), dict(kin, Q2=kin["Q2"] * 2), dict(kin, x=0.3)]
+    o["observables"][name] = pts
+    try:
+        out = yadism.run_yadism(t, o)
+        rs = out[name]
+        if len(rs) != len(pts) or any(r is None for r in rs):
+            return f"internal:shape:{len(rs)} results for {len(pts)} points"
+        if any(float(r.x) != p["x"] or float(r.Q2) != p["Q2"] for r, p in zip(rs, pts)):
+            return "internal:shape:results not in the order of the request"
+        fin = all(np.isfinite(v).all() and np.isfinite(e).all() for r in rs for v, e in r.orders.values())
         return "ok" if fin else "nonfinite"
     except Exception as e:  # noqa
         return classify_exception(e)
